@@ -46,7 +46,32 @@ func (ex *Exec) call(fr *Frame, st *State, site ssa.Instruction, c *ssa.CallComm
 				}
 			}
 		}
-		if pure {
+		fresh := false
+		if top := fr.topFrame(); top.con != nil {
+			for _, a := range top.con.AssumeFresh {
+				if a == txt {
+					fresh = true
+				}
+			}
+		}
+		if fresh {
+			ex.assumed[fmt.Sprintf("%s: calls through the function value %s modify nothing and return freshly allocated values", fr.label, txt)] = true
+			for i := 0; i < sig.Results().Len(); i++ {
+				rt := sig.Results().At(i).Type()
+				switch kindOf(rt) {
+				case kIface:
+					tag := Fresh("freshtag", SInt)
+					ex.fact(nil, Gt(tag, IntT(0)))
+					rets = append(rets, &Agg{F: []Val{tag, ex.newObj()}})
+				default:
+					if kindOf(rt) == kLeaf && leafSort(rt) == SPtr {
+						rets = append(rets, ex.newObj())
+					} else {
+						unsupp("assume_fresh on result type %s", rt)
+					}
+				}
+			}
+		} else if pure {
 			ex.assumed[fmt.Sprintf("%s: calls through the function value %s are pure (result determined by the function value and its arguments, no heap effect)", fr.label, txt)] = true
 			flat := append([]*Term{tm(ex.operand(fr, c.Value))}, flatAll(args)...)
 			for i := 0; i < sig.Results().Len(); i++ {
@@ -408,7 +433,12 @@ func (ex *Exec) modularCall(fr *Frame, st *State, site ssa.Instruction, fn *ssa.
 	rets := ex.freshResults(st, fn.Signature, "r."+fn.Name()+".")
 	env := ex.calleeEnv(fn, con, args, pre, st, rets)
 	for _, cl := range con.Ensures {
-		f := env.evalBool(cl.Text)
+		depth := ex.spec
+		f, ok := env.tryEvalBool(cl.Text)
+		if !ok {
+			ex.spec = depth
+			continue
+		}
 		if f.hasBound && len(env.logicalBound) > 0 {
 			f = Forall(env.logicalBound, Implies(st.reach, f))
 			ex.fact(nil, f)
@@ -456,6 +486,31 @@ func (ex *Exec) havocLvalue(st *State, env *SpecEnv, text string) {
 		default:
 			unsupp("modifies %s: not a map or slice", text)
 		}
+		return
+	}
+	if strings.HasSuffix(text, ".*") {
+		base := strings.TrimSuffix(text, ".*")
+		pc := ex.parseClause(env.pkg, env.pos, base)
+		if pc.err != nil {
+			unsupp("modifies %s: %v", text, pc.err)
+		}
+		env.info = pc.info
+		ex.spec++
+		v := env.eval(pc.expr)
+		ex.spec--
+		var root *Term
+		switch x := v.(type) {
+		case *Term:
+			root = x
+		case *Agg:
+			if len(x.F) == 2 {
+				root = x.F[1].(*Term) // interface payload
+			}
+		}
+		if root == nil {
+			unsupp("modifies %s: not a pointer or interface", text)
+		}
+		ex.havocUnder(st, root)
 		return
 	}
 	if strings.HasSuffix(text, ")") {
@@ -543,17 +598,19 @@ func (e *SpecEnv) addrOf(x ast.Expr) *Term {
 func (ex *Exec) havocMap(st *State, m *Term, mt *types.Map) {
 	ks := mapKeySort(mt)
 	dn, ds := mdomName(ks)
+	// a nil map has no contents to modify
+	isNil := Eq(m, Null())
 	dom := st.heap.array(dn, ds)
-	st.heap.set(dn, Store(dom, m, Fresh("mdom", arrSort(ks, SBool))))
+	st.heap.set(dn, Ite(isNil, dom, Store(dom, m, Fresh("mdom", arrSort(ks, SBool)))))
 	for _, l := range typeLeaves(mt.Elem(), "", nil) {
 		n, s := mvalName(ks, l.path, l.sort)
 		a := st.heap.array(n, s)
-		st.heap.set(n, Store(a, m, Fresh("mval", arrSort(ks, l.sort))))
+		st.heap.set(n, Ite(isNil, a, Store(a, m, Fresh("mval", arrSort(ks, l.sort)))))
 	}
 	la := st.heap.array(mlenName, mlenSort)
 	nl := Fresh("mlen", SInt)
 	ex.fact(nil, Ge(nl, IntT(0)))
-	st.heap.set(mlenName, Store(la, m, nl))
+	st.heap.set(mlenName, Ite(isNil, la, Store(la, m, nl)))
 }
 
 // havocElems havocs every element cell of the backing array arr (frame axiom is quantified).
@@ -1084,5 +1141,18 @@ func (ex *Exec) bindCaptures(fr *Frame, env *SpecEnv, sc *specScope, reachNow *T
 		for i := 0; i < sig.Results().Len() && i < len(rec.rets); i++ {
 			bind(fmt.Sprintf("%s_r%d", cp.Name, i), rec.rets[i])
 		}
+	}
+}
+
+
+// havocUnder havocs every heap cell at or below the object `root` (all leaf sorts touched so far).
+func (ex *Exec) havocUnder(st *State, root *Term) {
+	p := BoundVar("hp", SPtr)
+	for _, sort := range []string{SInt, SBool, SStr, SPtr, SF64} {
+		n, s := heapName(sort)
+		old := st.heap.array(n, s)
+		nw := Fresh(n+"@obj", s)
+		ex.fact(nil, Forall([]*Term{p}, Or(underPred(p, func(q *Term) *Term { return Eq(q, root) }, 3), SameVal(Select(nw, p), Select(old, p)))))
+		st.heap.set(n, nw)
 	}
 }
